@@ -16,7 +16,7 @@
      port_out, port_ramp    = the notes and glides of mode 0 (below)
      note_count l           = number of NoteOn events of l *)
 From Sakura.Model Require Import Base Event Song F32 Tie RunCore Compile.
-From Sakura.Proofs Require Import TieP.
+From Sakura.Proofs Require Import ExtP TieP.
 From Coq Require Import Sorted.
 
 (* runs = the group cut into consecutive non-empty blocks of one pitch, neighbouring blocks of different
@@ -180,7 +180,10 @@ Theorem C13_group : forall (s : song) (ev : event) (notelen slur : Z),
   exists s', emit_note s ev notelen true slur = Ok s' /\
     let t := cur_track s in let t' := cur_track s' in
     (1 <= slur -> tr_tie_notes t' = tr_tie_notes t ++ [ev] /\ tr_events t' = tr_events t) /\
-    (slur < 1 -> tr_tie_notes t = [] -> tr_tie_notes t' = [] /\ tr_events t' = tr_events t ++ [ev]) /\
+    (slur < 1 -> tr_tie_notes t = [] -> tr_tie_notes t' = [] /\
+       (* since the pipeline model knows controller reservations: the values reserved for this note (y.onNote,
+          y.onNoteWave) are written before it - channel events without payload, none when nothing is reserved *)
+       exists cc, Forall plain_ev cc /\ tr_events t' = tr_events t ++ cc ++ [ev] /\ (tr_rsv t = rsv_new -> cc = [])) /\
     (slur < 1 -> tr_tie_notes t <> [] -> tr_tie_notes t' = [] /\
        exists first rest, tr_tie_notes t ++ [ev] = first :: rest /\
          tr_events t' = tr_events t ++ tie_out (s_timebase s) t first rest).
